@@ -10,7 +10,7 @@ import env
 import gen
 import oracles
 from fakes import MISSING, World
-from boracles import unit_buf_twin, unit_c07_scenarios, unit_buf_conflict, unit_buf_io_faults, unit_c06_handles
+from boracles import unit_buf_twin, unit_c07_scenarios, unit_buf_conflict, unit_buf_io_faults, unit_c06_handles, unit_c06_sessions
 from conc import unit_conc  # noqa: F401
 from c10 import unit_c10_faults, unit_c10_filename  # noqa: F401
 from c18 import unit_c18_family, unit_c18_attr, unit_c18_routes, unit_c11_foreign  # noqa: F401
@@ -123,7 +123,7 @@ BUF_PROFILES = {
     # name: dict of generator parameters
     "basic": dict(p_read=0.35, p_miss=0.15, p_ext=0.0, p_ctx=0.2, p_cap=0.0),
     "caps": dict(p_read=0.3, p_miss=0.15, p_ext=0.0, p_ctx=0.22, p_cap=0.7),
-    "joint": dict(p_read=0.4, p_miss=0.15, p_ext=0.0, p_ctx=0.2, p_cap=0.2, joint=True),
+    "joint": dict(p_read=0.4, p_miss=0.15, p_ext=0.0, p_ctx=0.2, p_cap=0.2, joint=True, p_back=0.24),
     "conflict": dict(p_read=0.3, p_miss=0.1, p_ext=0.12, p_ctx=0.25, p_cap=0.3),
     "readonly": dict(p_read=0.97, p_miss=0.1, p_ext=0.0, p_ctx=0.3, p_cap=0.3),
     # writes of some files fail with OSError (disk full) for stretches of the program
